@@ -5,7 +5,7 @@ import GoaVerif.Lemmas.ValCode
 `validate <att> <val>` → `called` | `rejected <first> <names,sorted,unique>` ·
 `compile <att>` → `code <canonical statements>`: `ValCode.compileBody`, printed like `rtvalcode run` prints
 the Go code the real generator emits · `runcode <att> <val>` → verdict of `ValCode.runL (compileBody att) val`
-in the format of `validate` (first = `-`) · `judge <att> <val>` →
+in the format of `validate` (first = `-`) · `hasval <att>` → `hasval=<0|1>`: `!noRules` (the generator's `hasValidations`) · `judge <att> <val>` →
 `spec=<called|rejected:names> model=<…> hyp=<okCtx typed noBothEx collOK>` (compared with `rtvalcode run`, which reads the
 Go code the real generator emits on the same value).
 
@@ -191,6 +191,11 @@ def handle : List String → Option String
     let (a, ts) ← parseAtt fuel toks
     if !ts.isEmpty then none else
     some ("code " ++ showL "body" (GoaVerif.ValCode.compileBody fuel a))
+  | "hasval" :: toks => do
+    let fuel := toks.length + 2
+    let (a, ts) ← parseAtt fuel toks
+    if !ts.isEmpty then none else
+    some (if GoaVerif.ValCode.noRules fuel a then "hasval=0" else "hasval=1")
   | "judge" :: toks => judgeLine toks false
   | "judgeu" :: toks => judgeLine toks true
   | "runcode" :: toks => do
